@@ -85,8 +85,9 @@ def voteNode (c : Csr Rat) (st : St) (i : Nat) : St :=
   ⟨st.labels.set i s.label, s.votes⟩
 
 /-- size of `votes`: largest label + 1 (0 if there is no non-negative label) -/
-def nLabels (labels : List Int) : Nat :=
-  labels.foldl (fun m l => if (m : Int) ≤ l then (l + 1).toNat else m) 0
+def nLabelsStep (m : Nat) (l : Int) : Nat := if (m : Int) ≤ l then (l + 1).toNat else m
+
+def nLabels (labels : List Int) : Nat := labels.foldl nLabelsStep 0
 
 def sweep (c : Csr Rat) (st : St) (index : List Nat) : St := index.foldl (voteNode c) st
 
